@@ -88,6 +88,16 @@ def main():
     if tier not in ("quick", "thorough"):
         tier = os.environ.get("VERIF_TIER", "quick")
     seed = int(os.environ.get("VERIF_SEED", "1") or "1")
+    if replay_in:
+        # a replay re-runs the check deterministically with the seed and tier recorded in the replay file:
+        # every generated case derives from that one PRNG state, so the failing input is regenerated exactly
+        try:
+            rj = json.load(open(replay_in))
+            seed = int(rj.get("seed", seed))
+            tier = rj.get("tier", tier)
+        except Exception as e:  # noqa: BLE001
+            print("cannot read replay file %s: %s" % (replay_in, e))
+            sys.exit(2)
     cfg = load_props(prop)
     t0 = time.time()
     os.makedirs(os.path.join(VERIF, "evidence"), exist_ok=True)
